@@ -242,7 +242,7 @@ theorem pass2_blames (f : File) (fb : Bool) (s : Schema) (d : Diag) (h : d ∈ p
 /-- **OVERLOADED_ATTR blames a new attribute and a supertype that really has an attribute of that name** (own or inherited):
     arguments (attribute, supertype), on the attribute's line -/
 theorem overload_blames (p : String) (s : Schema) (fuel : Nat) (e : Entity) (d : Diag) (h : d ∈ overloadDiags p s fuel e) :
-    ∃ a ∈ e.attrs, a.redeclOf = none ∧ ∃ sup ∈ supersOf s e, namedAttr s a.name fuel sup = some true ∧
+    ∃ a ∈ e.attrs, a.redeclOf = none ∧ ∃ sup ∈ supersOf s e, overloadFound s a.name fuel sup = some true ∧
       d.line = a.line ∧ d.args = [sArg a.name, sArg (declName sup)] := by
   simp only [overloadDiags, List.mem_filterMap] at h
   obtain ⟨⟨r, d0⟩, hx, hd⟩ := h
